@@ -15,10 +15,22 @@ class _Sentinel(object):
     """build a sentinel object for the SENTINEL singleton"""
     def __repr__(self):
         return "<SENTINEL>"
+    def __eq__(self, other): # singletons stay equal after (un)pickling
+        return type(other) is type(self)
+    def __ne__(self, other):
+        return not self.__eq__(other)
+    def __hash__(self):
+        return hash(type(self))
 class _NoSentinel(object):
     """build a sentinel object for the NOSENTINEL singleton"""
     def __repr__(self):
         return "<NOSENTINEL>"
+    def __eq__(self, other): # singletons stay equal after (un)pickling
+        return type(other) is type(self)
+    def __ne__(self, other):
+        return not self.__eq__(other)
+    def __hash__(self):
+        return hash(type(self))
 
 SENTINEL = _Sentinel()
 NOSENTINEL = _NoSentinel()
